@@ -37,6 +37,9 @@ type c15Conc struct {
 	dupSeen atomic.Int64
 	reads   atomic.Int64
 	subsMu  sync.Mutex // guards w.subs for the readers
+	// streaming: pumps hold it shared around each send; the controller takes it
+	// exclusively to attach a subscriber at a moment when no response is in flight
+	streaming sync.RWMutex
 }
 
 func c15Closed(ch chan struct{}) bool {
@@ -84,7 +87,9 @@ func (c *c15Conc) pump(lw *c15Watch, r *rand.Rand) {
 		if len(evs) == 0 {
 			continue
 		}
+		c.streaming.RLock()
 		ok, abandoned := c15Send(lw, c15Response(evs, 0))
+		c.streaming.RUnlock()
 		if abandoned {
 			return
 		}
@@ -115,8 +120,18 @@ func (c *c15Conc) abandon() {
 	e.mu.Unlock()
 }
 
-func (c *c15Conc) attach(svc string, excl bool, r *rand.Rand) bool {
+// attach: quiet=true pauses the streams and waits until the watch goroutines
+// are parked, so that the join does not overlap the processing of an event.
+func (c *c15Conc) attach(svc string, excl bool, quiet bool, r *rand.Rand) bool {
 	w := c.w
+	if quiet {
+		c.streaming.Lock()
+		defer c.streaming.Unlock()
+		if len(w.live) > 0 && !w.quiesce() {
+			return false
+		}
+	}
+	w.ops = append(w.ops, c15Op{Op: "sub", X: excl, S: fmt.Sprintf("quiet=%v log=%d", quiet, w.etcd.logLen())})
 	nb := w.etcd.watchCount()
 	var opts []discov.SubOption
 	if excl {
@@ -147,6 +162,7 @@ func (c *c15Conc) attach(svc string, excl bool, r *rand.Rand) bool {
 // being processed.
 func (c *c15Conc) reload(quiesced bool, r *rand.Rand) bool {
 	w := c.w
+	w.ops = append(w.ops, c15Op{Op: "reload", S: fmt.Sprintf("quiesced=%v log=%d", quiesced, w.etcd.logLen())})
 	c.abandon()
 	if quiesced {
 		if !w.quiesce() {
@@ -182,6 +198,7 @@ func (c *c15Conc) rewatch(r *rand.Rand) bool {
 	}
 	i := r.Intn(len(w.live))
 	lw := w.live[i]
+	w.ops = append(w.ops, c15Op{Op: "wclose", N: lw.id, S: fmt.Sprintf("log=%d", w.etcd.logLen())})
 	// stop its pump first (only the pump sends on the channel), then break the stream
 	e := w.etcd
 	e.mu.Lock()
@@ -207,7 +224,7 @@ func (c *c15Conc) rewatch(r *rand.Rand) bool {
 	return true
 }
 
-func c15RaceRound(m *vk.M, idx int, r *rand.Rand, inflight bool) (cont bool) {
+func c15RaceRound(m *vk.M, idx int, r *rand.Rand, inflight, streamingAttach bool) (cont bool) {
 	svc := "c15.race"
 	w := newC15World(m, idx, r, []string{svc})
 	if w.incon {
@@ -227,11 +244,11 @@ func c15RaceRound(m *vk.M, idx int, r *rand.Rand, inflight bool) (cont bool) {
 		w.put(0, k, val(k))
 		present[k] = true
 	}
-	if !c.attach(svc, false, r) {
+	if !c.attach(svc, false, true, r) {
 		return false
 	}
 	if r.Intn(2) == 0 {
-		if !c.attach(svc, true, r) {
+		if !c.attach(svc, true, true, r) {
 			return false
 		}
 	}
@@ -307,7 +324,7 @@ func c15RaceRound(m *vk.M, idx int, r *rand.Rand, inflight bool) (cont bool) {
 			ok = c.reload(!inflight || r.Intn(2) == 0, r)
 		case x < 7:
 			if len(w.subs) < 5 {
-				ok = c.attach(svc, r.Intn(2) == 0, r)
+				ok = c.attach(svc, r.Intn(2) == 0, !streamingAttach, r)
 			}
 		default:
 			ok = c.rewatch(r)
@@ -344,6 +361,7 @@ func c15RaceRound(m *vk.M, idx int, r *rand.Rand, inflight bool) (cont bool) {
 				if s.excl != (pass == 1) || w.failed {
 					continue
 				}
+				w.ops = append(w.ops, c15Op{Op: "final", N: s.id, S: fmt.Sprint(s.sub.Values())})
 				if w.checkSub(s, s.sub.Values(), "concurrent-final") {
 					// the last listener run saw the final list
 					s.mu.Lock()
@@ -403,7 +421,7 @@ func TestVerifC15RaceConcurrent(t *testing.T) {
 		}
 		r := m.Rand("race", idx)
 		inflight := vk.Thorough() && idx%3 == 0
-		if !c15RaceRound(m, idx, r, inflight) {
+		if !c15RaceRound(m, idx, r, inflight, false) {
 			return
 		}
 		if idx%100 == 0 {
